@@ -48,7 +48,58 @@ def enc_rows(rows, cols=("i1", "i2", "s1", "s2", "b1")):
 def sqlite_table(rows):
     import sqlite3
     c = sqlite3.connect(":memory:")
-    c.execute("CREATE TABLE t (id INTEGER PRIMARY KEY, i1 INTEGER, i2 INTEGER, s1 TEXT, s2 TEXT, b1 BOOLEAN)")
-    c.executemany("INSERT INTO t (id, i1, i2, s1, s2, b1) VALUES (?,?,?,?,?,?)",
-                  [(r["id"], r["i1"], r["i2"], r["s1"], r["s2"], r["b1"]) for r in rows])
+    c.execute("CREATE TABLE t (id INTEGER PRIMARY KEY, i1 INTEGER, i2 INTEGER, s1 TEXT, s2 TEXT, b1 BOOLEAN, f1 REAL)")
+    c.executemany("INSERT INTO t (id, i1, i2, s1, s2, b1, f1) VALUES (?,?,?,?,?,?,?)",
+                  [(r["id"], r["i1"], r["i2"], r["s1"], r["s2"], r["b1"], r.get("f1")) for r in rows])
     return c
+
+
+# --- numeric stream: floor / ceiling / round over a FRACTIONAL column, judged against Spec/NumFn.lean --------------------------
+QUARTERS = list(range(-13, 14))          # f1 = q / 4: exact binary fractions in [-3.25, 3.25]
+ROUND_FNS = ["floor", "ceiling", "round"]
+CMP_WORDS = ["eq", "ne", "lt", "le", "gt", "ge"]
+
+def numeric_rows(with_null=True):
+    rows = [{"id": k + 1, "i1": None, "i2": None, "s1": None, "s2": None, "b1": None, "f1": q / 4, "_q": q} for k, q in enumerate(QUARTERS)]
+    if with_null:
+        rows.append({"id": len(rows) + 1, "i1": None, "i2": None, "s1": None, "s2": None, "b1": None, "f1": None, "_q": None})
+    return rows
+
+def numeric_cases():
+    return [(fn, cmp, n, f"{fn}(f1) {cmp} {n}") for fn in ROUND_FNS for cmp in CMP_WORDS for n in range(-3, 4)]
+
+def numeric_expect(cases, rows):
+    """Spec.numFnHolds (Lean) per case: list of 'T' / 'F' / 'U' per row"""
+    cells = ",".join("n" if r["_q"] is None else str(r["_q"]) for r in rows)
+    outs = driver.run_batch([driver.req("numfn", fn, cmp, str(n), cells) for fn, cmp, n, t in cases])
+    return [o.split(" ") for o in outs]
+
+def judge_numeric(ctx, ids_fn, rows, kf=None):
+    """ids_fn(text) -> set of ids, or a string outcome.  Returns (violations, tally); a violation is (text, row, why).
+    kf(fn, row) -> True when a listed known finding covers this (function, row)."""
+    import collections
+    cases = numeric_cases()
+    exp = numeric_expect(cases, rows)
+    viol, tally = [], collections.Counter()
+    for (fn, cmp, n, t), want in zip(cases, exp):
+        got = ids_fn(t)
+        ctx.evaluations += 1
+        if not isinstance(got, set):
+            tally["refused-or-error:" + str(got)[:40]] += 1
+            viol.append((t, None, f"not translated / not executed: {str(got)[:120]}"))
+            continue
+        sel = 0
+        for r, w in zip(rows, want):
+            a = r["id"] in got
+            if a != (w == "T"):
+                if kf and kf(fn, r):
+                    tally["under-known-finding"] += 1
+                else:
+                    tally["SPEC-MISMATCH"] += 1
+                    viol.append((t, {"id": r["id"], "f1": r["f1"]}, f"backend {'selects' if a else 'does not select'} the row, OData semantics (Spec.NumFn) says {w}"))
+            else:
+                tally["spec-agree"] += 1
+                sel += 1 if a else 0
+        if 0 < sel < len(rows):
+            ctx.nontrivial.add("num:" + t)
+    return viol, tally
